@@ -181,4 +181,558 @@ theorem vectorLt_cons (a b : Nat) (v w : List Nat) :
     | some i => simp
   · simp [hab]
 
+theorem vectorLe_nil_left (w : List Nat) : vectorLe [] w = some true := by
+  simp [vectorLe, cmpLoop]
+
+theorem vectorLe_nil_right (a : Nat) (v : List Nat) : vectorLe (a :: v) [] = some false := by
+  simp [vectorLe, cmpLoop]
+
+theorem vectorLe_cons (a b : Nat) (v w : List Nat) :
+    vectorLe (a :: v) (b :: w) = if a = b then vectorLe v w else some (decide (a < b)) := by
+  unfold vectorLe
+  simp only [List.length_cons, Nat.add_min_add_right]
+  rw [cmpLoop]
+  simp only [Nat.zero_lt_succ, if_true, List.getElem?_cons_zero, Nat.add_zero]
+  by_cases hab : a = b
+  · simp only [hab, if_true]
+    have := cmpLoop_cons b b v w (min v.length w.length) 0
+    simp only [Nat.zero_add] at this
+    rw [this]
+    cases cmpLoop v w 0 (min v.length w.length) 0 with
+    | none => rfl
+    | some i => simp
+  · simp [hab]
+
+/-- `vector_lt` decides the lexicographic order (and never hits an index panic) -/
+theorem vectorLt_lex (v w : List Nat) :
+    ∃ b, vectorLt v w = some b ∧ (b = true ↔ List.Lex (· < ·) v w) := by
+  induction v generalizing w with
+  | nil =>
+    refine ⟨_, vectorLt_nil_left w, ?_⟩
+    cases w with
+    | nil => simp
+    | cons b w => simp
+  | cons a v ih =>
+    cases w with
+    | nil => exact ⟨_, vectorLt_nil_right _, by simp⟩
+    | cons b w =>
+      rw [vectorLt_cons]
+      by_cases hab : a = b
+      · subst hab
+        obtain ⟨r, h1, h2⟩ := ih w
+        refine ⟨r, by simp [h1], ?_⟩
+        rw [h2]
+        constructor
+        · exact List.Lex.cons
+        · intro h
+          cases h with
+          | rel h => exact absurd h (Nat.lt_irrefl _)
+          | cons h => exact h
+      · refine ⟨decide (a < b), by simp [hab], ?_⟩
+        simp only [decide_eq_true_eq]
+        constructor
+        · exact List.Lex.rel
+        · intro h
+          cases h with
+          | rel h => exact h
+          | cons h => exact absurd rfl hab
+
+theorem vectorLe_lex (v w : List Nat) :
+    ∃ b, vectorLe v w = some b ∧ (b = true ↔ (List.Lex (· < ·) v w ∨ v = w)) := by
+  induction v generalizing w with
+  | nil =>
+    refine ⟨_, vectorLe_nil_left w, ?_⟩
+    cases w with
+    | nil => simp
+    | cons b w => simp
+  | cons a v ih =>
+    cases w with
+    | nil => exact ⟨_, vectorLe_nil_right _ _, by simp⟩
+    | cons b w =>
+      rw [vectorLe_cons]
+      by_cases hab : a = b
+      · subst hab
+        obtain ⟨r, h1, h2⟩ := ih w
+        refine ⟨r, by simp [h1], ?_⟩
+        rw [h2]
+        constructor
+        · rintro (h | h)
+          · exact Or.inl (List.Lex.cons h)
+          · exact Or.inr (by rw [h])
+        · rintro (h | h)
+          · cases h with
+            | rel h => exact absurd h (Nat.lt_irrefl _)
+            | cons h => exact Or.inl h
+          · exact Or.inr (List.cons.inj h).2
+      · refine ⟨decide (a < b), by simp [hab], ?_⟩
+        simp only [decide_eq_true_eq]
+        constructor
+        · exact fun h => Or.inl (List.Lex.rel h)
+        · rintro (h | h)
+          · cases h with
+            | rel h => exact h
+            | cons h => exact absurd rfl hab
+          · exact absurd (List.cons.inj h).1 hab
+
+/-! ### facts about the lexicographic order on `List Nat` -/
+
+theorem lex_irrefl (v : List Nat) : ¬ List.Lex (· < ·) v v := by
+  induction v with
+  | nil => intro h; cases h
+  | cons a v ih =>
+    intro h
+    cases h with
+    | rel h => exact Nat.lt_irrefl _ h
+    | cons h => exact ih h
+
+theorem lex_trans {u v w : List Nat} (h1 : List.Lex (· < ·) u v) (h2 : List.Lex (· < ·) v w) :
+    List.Lex (· < ·) u w := by
+  induction h1 generalizing w with
+  | nil => cases h2 <;> exact List.Lex.nil
+  | rel h =>
+    cases h2 with
+    | rel h' => exact List.Lex.rel (Nat.lt_trans h h')
+    | cons h' => exact List.Lex.rel h
+  | cons h ih =>
+    cases h2 with
+    | rel h' => exact List.Lex.rel h'
+    | cons h' => exact List.Lex.cons (ih h')
+
+theorem lex_trichotomy (v w : List Nat) :
+    List.Lex (· < ·) v w ∨ v = w ∨ List.Lex (· < ·) w v := by
+  induction v generalizing w with
+  | nil =>
+    cases w with
+    | nil => exact Or.inr (Or.inl rfl)
+    | cons b w => exact Or.inl List.Lex.nil
+  | cons a v ih =>
+    cases w with
+    | nil => exact Or.inr (Or.inr List.Lex.nil)
+    | cons b w =>
+      rcases Nat.lt_trichotomy a b with h | h | h
+      · exact Or.inl (List.Lex.rel h)
+      · subst h
+        rcases ih w with h | h | h
+        · exact Or.inl (List.Lex.cons h)
+        · exact Or.inr (Or.inl (by rw [h]))
+        · exact Or.inr (Or.inr (List.Lex.cons h))
+      · exact Or.inr (Or.inr (List.Lex.rel h))
+
+theorem lex_of_prefix (v x : List Nat) (hx : x ≠ []) : List.Lex (· < ·) v (v ++ x) := by
+  induction v with
+  | nil =>
+    cases x with
+    | nil => exact absurd rfl hx
+    | cons a x => exact List.Lex.nil
+  | cons a v ih => exact List.Lex.cons ih
+
+/-! ### prefix / suffix -/
+
+theorem vectorPrefix_spec (v w : List Nat) :
+    ∃ b, vectorPrefix v w = some b ∧ (b = true ↔ Occ w v 0 ) := by
+  unfold vectorPrefix
+  by_cases h : v.length ≤ w.length
+  · simp only [h, if_true]
+    obtain ⟨m, hm, hiff⟩ := cmpLoop_full v w 0 (by omega)
+    rw [hm]
+    exact ⟨_, rfl, by simp [hiff]⟩
+  · simp only [h, if_false]
+    refine ⟨false, rfl, ?_⟩
+    constructor
+    · intro h'; cases h'
+    · intro ho; have := ho.1; omega
+
+theorem vectorSuffix_spec (v w : List Nat) :
+    ∃ b, vectorSuffix v w = some b ∧ (b = true ↔ (v.length ≤ w.length ∧ Occ w v (w.length - v.length))) := by
+  unfold vectorSuffix
+  by_cases h : v.length ≤ w.length
+  · simp only [h, if_true]
+    obtain ⟨m, hm, hiff⟩ := cmpLoop_full v w (w.length - v.length) (by omega)
+    rw [hm]
+    exact ⟨_, rfl, by simp [hiff]⟩
+  · simp only [h, if_false]
+    exact ⟨false, rfl, by simp⟩
+
+theorem occ_zero_iff (w v : List Nat) : Occ w v 0 ↔ ∃ x, w = v ++ x := by
+  rw [occ_iff_decomp]
+  constructor
+  · rintro ⟨u, x, h, hu⟩
+    have : u = [] := List.eq_nil_of_length_eq_zero hu
+    subst this
+    exact ⟨x, by simpa using h⟩
+  · rintro ⟨x, h⟩
+    exact ⟨[], x, by simpa using h, rfl⟩
+
+theorem occ_end_iff (w v : List Nat) :
+    (v.length ≤ w.length ∧ Occ w v (w.length - v.length)) ↔ ∃ x, w = x ++ v := by
+  rw [occ_iff_decomp]
+  constructor
+  · rintro ⟨hle, u, x, h, hu⟩
+    have hl := congrArg List.length h
+    simp only [List.length_append] at hl
+    have : x = [] := List.eq_nil_of_length_eq_zero (by omega)
+    subst this
+    exact ⟨u, by simpa using h⟩
+  · rintro ⟨x, h⟩
+    have hl := congrArg List.length h
+    simp only [List.length_append] at hl
+    exact ⟨by omega, x, [], by simpa using h, by omega⟩
+
+/-! ### contains / indexof / replace through `naive_search` -/
+
+theorem strContains_spec (s1 s2 : List Nat) :
+    ∃ b, strContains s1 s2 = some b ∧ (b = true ↔ ∃ n, Occ s1 s2 n) := by
+  unfold strContains findSubVector
+  obtain ⟨r, hr, hs⟩ := naiveSearch_spec s2 s1 0
+  rw [hr]
+  cases r with
+  | notFound =>
+    refine ⟨false, rfl, ?_⟩
+    constructor
+    · intro h; cases h
+    · rintro ⟨n, hn⟩; exact (hs n (Nat.zero_le _) hn).elim
+  | found i j => exact ⟨true, rfl, by simp only [true_iff]; exact ⟨i, hs.2.1⟩⟩
+
+/-- closed form of `str_indexof` for a string that fits the length limit and an i32 start index -/
+theorem strIndexof_spec (s1 s2 : List Nat) (i : Int) (hlen : s1.length ≤ 2147483647) :
+    ∃ r, strIndexof s1 s2 i = some r ∧
+      ((0 ≤ i ∧ ∃ n : Nat, i ≤ n ∧ Occ s1 s2 n) →
+        ∃ n : Nat, r = n ∧ i ≤ n ∧ Occ s1 s2 n ∧ ∀ n' : Nat, i ≤ n' → Occ s1 s2 n' → n ≤ n') ∧
+      (¬ (0 ≤ i ∧ ∃ n : Nat, i ≤ n ∧ Occ s1 s2 n) → r = -1) := by
+  unfold strIndexof findSubVector
+  rw [usizeAsI32_of_le _ hlen]
+  by_cases hg : i < 0 ∨ i > (s1.length : Int)
+  · rw [if_pos hg]
+    refine ⟨-1, rfl, ?_, fun _ => rfl⟩
+    rintro ⟨h0, n, hn, ho⟩
+    have := ho.1
+    omega
+  · rw [if_neg hg]
+    have h0 : 0 ≤ i := by omega
+    rw [i32AsUsize_of_nonneg i h0]
+    obtain ⟨r, hr, hs⟩ := naiveSearch_spec s2 s1 i.toNat
+    rw [hr]
+    cases r with
+    | notFound =>
+      refine ⟨-1, rfl, ?_, fun _ => rfl⟩
+      rintro ⟨_, n, hn, ho⟩
+      exact (hs n (by omega) ho).elim
+    | found k j =>
+      obtain ⟨h1, h2, h3, h4⟩ := hs
+      have hk : k ≤ 2147483647 := by have := h2.1; omega
+      refine ⟨_, rfl, ?_, ?_⟩
+      · intro _
+        refine ⟨k, usizeAsI32_of_le k hk, by omega, h2, ?_⟩
+        intro n' hn' ho'
+        by_contra hlt
+        exact h4 n' (by omega) (by omega) ho'
+      · intro hneg
+        exact (hneg ⟨h0, k, by omega, h2⟩).elim
+
+theorem strReplace_spec (s p r : List Nat) :
+    (¬ (∃ n, Occ s p n) → strReplace s p r = make s) ∧
+    ((∃ n, Occ s p n) → ∃ i, Occ s p i ∧ (∀ n, n < i → ¬ Occ s p n) ∧
+        strReplace s p r = make (s.take i ++ r ++ s.drop (i + p.length))) := by
+  unfold strReplace findSubVector makeFromSlice
+  obtain ⟨res, hr, hs⟩ := naiveSearch_spec p s 0
+  rw [hr]
+  cases res with
+  | notFound =>
+    refine ⟨fun _ => rfl, ?_⟩
+    rintro ⟨n, hn⟩; exact (hs n (Nat.zero_le _) hn).elim
+  | found i j =>
+    obtain ⟨_, h2, h3, h4⟩ := hs
+    refine ⟨fun h => (h ⟨i, h2⟩).elim, fun _ => ⟨i, h2, fun n hn => h4 n (Nat.zero_le _) hn, ?_⟩⟩
+    have := h2.1
+    subst h3
+    simp only [sliceTo?, sliceFrom?]
+    rw [if_pos (by omega), if_pos (by omega)]
+
+/-! ### at / substr -/
+
+theorem strSubstr_closed (s : List Nat) (i n : Int) (hlen : s.length ≤ 2147483647)
+    (hn : n ≤ 2147483647) :
+    strSubstr s i n = some (if 0 ≤ i ∧ i < (s.length : Int) ∧ 0 < n
+      then (s.drop i.toNat).take (min n.toNat (s.length - i.toNat)) else []) := by
+  unfold strSubstr makeFromSlice
+  rw [usizeAsI32_of_le _ hlen]
+  by_cases hg : i < 0 ∨ i ≥ (s.length : Int) ∨ n ≤ 0
+  · rw [if_pos hg, if_neg (by omega)]
+  · rw [if_neg hg, if_pos (by omega)]
+    have h0 : 0 ≤ i := by omega
+    have hn0 : 0 ≤ n := by omega
+    simp only [i32AsUsize_of_nonneg i h0, i32AsUsize_of_nonneg n hn0]
+    unfold slice?
+    rw [if_pos (by omega)]
+    simp only []
+    have e : min (i.toNat + n.toNat) s.length - i.toNat = min n.toNat (s.length - i.toNat) := by omega
+    rw [e]
+    apply make_of_le
+    simp only [List.length_take, List.length_drop]
+    omega
+
+theorem strAt_closed (s : List Nat) (i : Int) (hlen : s.length ≤ 2147483647) (hwf : WFs s) :
+    strAt s i = some (if 0 ≤ i ∧ i < (s.length : Int) then (s.drop i.toNat).take 1 else []) := by
+  unfold strAt
+  rw [usizeAsI32_of_le _ hlen]
+  by_cases hg : i < 0 ∨ i ≥ (s.length : Int)
+  · rw [if_pos hg, if_neg (by omega)]
+  · rw [if_neg hg, if_pos (by omega)]
+    have h0 : 0 ≤ i := by omega
+    rw [i32AsUsize_of_nonneg i h0]
+    have hlt : i.toNat < s.length := by omega
+    rw [List.getElem?_eq_getElem hlt]
+    simp only [fromU32]
+    have hc : s[i.toNat] ≤ MAX_CHAR := hwf _ (List.getElem_mem hlt)
+    rw [if_pos hc, make_of_le _ (by simp)]
+    rw [List.drop_eq_getElem_cons hlt, List.take_succ_cons, List.take_zero]
+
+/-! ### replace_all -/
+
+theorem occ_drop (s p : List Nat) (i n : Nat) (hi : i ≤ s.length) :
+    Occ (s.drop i) p n ↔ Occ s p (n + i) := by
+  unfold Occ
+  simp only [List.length_drop, List.getElem?_drop]
+  constructor
+  · rintro ⟨h1, h2⟩
+    refine ⟨by omega, fun t ht => ?_⟩
+    rw [h2 t ht]; congr 1; omega
+  · rintro ⟨h1, h2⟩
+    refine ⟨by omega, fun t ht => ?_⟩
+    rw [h2 t ht]; congr 1; omega
+
+/-- The `while let` loop of `str_replace_all`, against any relation `R` closed under the two
+    rules of the SMT-LIB definition (no occurrence: identity; leftmost occurrence at `j`:
+    `w.take j ++ r ++ (replace_all of the rest)`), both phrased with `Occ`. -/
+theorem replaceAllLoop_spec (s p r : List Nat) (hp : 0 < p.length)
+    (R : List Nat → List Nat → Prop)
+    (hno : ∀ w, (∀ n, ¬ Occ w p n) → R w w)
+    (hstep : ∀ w j out, Occ w p j → (∀ n, n < j → ¬ Occ w p n) →
+      R (w.drop (j + p.length)) out → R w (w.take j ++ r ++ out))
+    (i : Nat) (x : List Nat) (hi : i ≤ s.length) :
+    ∃ out, R (s.drop i) out ∧ replaceAllLoop s p r hp i x = make (x ++ out) := by
+  fun_induction replaceAllLoop s p r hp i x with
+  | case1 i x hf =>
+    obtain ⟨res, hr, _⟩ := naiveSearch_spec p s i
+    unfold findSubVector at hf; rw [hf] at hr; cases hr
+  | case2 i x j k hf hsl =>
+    obtain ⟨res, hr, hs⟩ := naiveSearch_spec p s i
+    unfold findSubVector at hf; rw [hf] at hr; cases hr
+    have := hs.2.1.1
+    unfold slice? at hsl
+    rw [if_pos ⟨hs.1, by omega⟩] at hsl; cases hsl
+  | case3 i x j k hf seg hsl ih =>
+    obtain ⟨res, hr, hs⟩ := naiveSearch_spec p s i
+    unfold findSubVector at hf; rw [hf] at hr; cases hr
+    obtain ⟨h1, h2, h3, h4⟩ := hs
+    have hjl := h2.1
+    unfold slice? at hsl
+    rw [if_pos ⟨h1, by omega⟩] at hsl
+    cases hsl
+    obtain ⟨out, hR, hloop⟩ := ih (by omega)
+    refine ⟨List.take (j - i) (List.drop i s) ++ r ++ out, ?_, ?_⟩
+    · apply hstep (s.drop i) (j - i) out
+      · rw [occ_drop s p i (j - i) hi]
+        have : j - i + i = j := by omega
+        rw [this]; exact h2
+      · intro n hn ho
+        rw [occ_drop s p i n hi] at ho
+        exact h4 (n + i) (by omega) (by omega) ho
+      · rw [List.drop_drop]
+        have : i + (j - i + p.length) = k := by omega
+        rw [this]; exact hR
+    · rw [hloop]; simp only [List.append_assoc]
+  | case4 i x hf hsl =>
+    unfold sliceFrom? at hsl
+    rw [if_pos hi] at hsl; cases hsl
+  | case5 i x hf rest hsl =>
+    obtain ⟨res, hr, hs⟩ := naiveSearch_spec p s i
+    unfold findSubVector at hf; rw [hf] at hr; cases hr
+    unfold sliceFrom? at hsl
+    rw [if_pos hi] at hsl; cases hsl
+    refine ⟨s.drop i, ?_, rfl⟩
+    apply hno
+    intro n ho
+    rw [occ_drop s p i n hi] at ho
+    exact hs (n + i) (by omega) ho
+
+/-! ### to_int / from_int -/
+
+/-- value accumulated by reading the digit string `s` after `acc` -/
+def decFold (acc : Nat) (s : List Nat) : Nat := s.foldl (fun a d => 10 * a + (d - 48)) acc
+
+theorem decFold_nil (x : Nat) : decFold x [] = x := by simp only [decFold, List.foldl_nil]
+theorem decFold_cons (x d : Nat) (s : List Nat) : decFold x (d :: s) = decFold (10 * x + (d - 48)) s := by
+  simp only [decFold, List.foldl_cons]
+
+theorem decFold_ge (x : Nat) (s : List Nat) : x ≤ decFold x s := by
+  induction s generalizing x with
+  | nil => exact Nat.le_refl _
+  | cons d s ih =>
+    rw [decFold_cons]
+    have := ih (10 * x + (d - 48))
+    omega
+
+theorem decFold_append (x : Nat) (s t : List Nat) : decFold x (s ++ t) = decFold (decFold x s) t := by
+  simp only [decFold, List.foldl_append]
+
+theorem inI32_iff (x : Int) : inI32 x = true ↔ (-2147483648 ≤ x ∧ x ≤ 2147483647) := by
+  unfold inI32
+  rw [Bool.and_eq_true, decide_eq_true_iff, decide_eq_true_iff]
+  exact Iff.rfl
+
+theorem charIsDigit_iff (c : Nat) : charIsDigit c = true ↔ (48 ≤ c ∧ c ≤ 57) := by
+  simp only [charIsDigit, Bool.and_eq_true, decide_eq_true_eq, ge_iff_le]
+
+theorem toIntLoop_spec (pr : Profile) (s : List Nat) (x : Nat)
+    (hd : ∀ c ∈ s, charIsDigit c = true) (hx : x ≤ 2147483647) :
+    toIntLoop pr s (x : Int) =
+      if decFold x s ≤ 2147483647 then some ((decFold x s : Nat) : Int) else none := by
+  induction s generalizing x with
+  | nil => rw [decFold_nil, if_pos hx, toIntLoop]
+  | cons d rest ih =>
+    have hdig := (charIsDigit_iff d).1 (hd d (List.mem_cons_self))
+    have hrest : ∀ c ∈ rest, charIsDigit c = true := fun c hc => hd c (List.mem_cons_of_mem _ hc)
+    have hcast : u32AsI32 d = (d : Int) := u32AsI32_of_le d (by omega)
+    have hsub : arithI32 pr ((d : Int) - 48) = some ((d : Int) - 48) := by
+      unfold arithI32
+      rw [if_pos ((inI32_iff _).2 (by omega))]
+    rw [decFold_cons, toIntLoop, toIntStep, hcast, hsub]
+    simp only [Option.bind_some]
+    have hge := decFold_ge (10 * x + (d - 48)) rest
+    by_cases h1 : (x : Int) * 10 ≤ 2147483647
+    · have e1 : checkedI32 ((x : Int) * 10) = some ((x : Int) * 10) := by
+        unfold checkedI32; rw [if_pos ((inI32_iff _).2 (by omega))]
+      rw [e1]
+      simp only [Option.bind_some]
+      by_cases h2 : (x : Int) * 10 + ((d : Int) - 48) ≤ 2147483647
+      · have e2 : checkedI32 ((x : Int) * 10 + ((d : Int) - 48)) = some ((x : Int) * 10 + ((d : Int) - 48)) := by
+          unfold checkedI32; rw [if_pos ((inI32_iff _).2 (by omega))]
+        rw [e2]
+        simp only [Option.bind_some]
+        have e3 : (x : Int) * 10 + ((d : Int) - 48) = ((10 * x + (d - 48) : Nat) : Int) := by omega
+        rw [e3]
+        exact ih (10 * x + (d - 48)) hrest (by omega)
+      · have e2 : checkedI32 ((x : Int) * 10 + ((d : Int) - 48)) = none := by
+          unfold checkedI32; rw [if_neg]; rw [inI32_iff]; omega
+        rw [e2]
+        simp only [Option.bind_none]
+        rw [if_neg (by omega)]
+    · have e1 : checkedI32 ((x : Int) * 10) = none := by
+        unfold checkedI32; rw [if_neg]; rw [inI32_iff]; omega
+      rw [e1]
+      simp only [Option.bind_none]
+      rw [if_neg (by omega)]
+
+theorem strToInt_nondigit (pr : Profile) (s : List Nat)
+    (h : s = [] ∨ ∃ c ∈ s, charIsDigit c = false) : strToInt pr s = some (-1) := by
+  unfold strToInt
+  rw [if_pos]
+  rcases h with h | ⟨c, hc, hd⟩
+  · subst h; rfl
+  · have : s.all charIsDigit = false := by
+      rw [List.all_eq_false]; exact ⟨c, hc, by simp [hd]⟩
+    simp [this]
+
+theorem strToInt_digits (pr : Profile) (s : List Nat)
+    (hne : s ≠ []) (hd : ∀ c ∈ s, charIsDigit c = true) :
+    strToInt pr s =
+      if decFold 0 s ≤ 2147483647 then some ((decFold 0 s : Nat) : Int) else none := by
+  unfold strToInt
+  have h1 : s.isEmpty = false := by cases s <;> simp_all
+  have h2 : s.all charIsDigit = true := List.all_eq_true.2 hd
+  rw [if_neg (by simp [h1, h2])]
+  exact toIntLoop_spec pr s 0 hd (by omega)
+
+/-! ### decimal digits -/
+
+theorem decDigits_digits (n : Nat) : ∀ c ∈ decDigits n, 48 ≤ c ∧ c ≤ 57 := by
+  fun_induction decDigits n with
+  | case1 n h => intro c hc; simp at hc; omega
+  | case2 n h ih =>
+    intro c hc
+    rw [List.mem_append] at hc
+    rcases hc with hc | hc
+    · exact ih c hc
+    · simp at hc; omega
+
+theorem decDigits_value (n : Nat) : decFold 0 (decDigits n) = n := by
+  fun_induction decDigits n with
+  | case1 n h => rw [decFold_cons, decFold_nil]; omega
+  | case2 n h ih => rw [decFold_append, ih, decFold_cons, decFold_nil]; omega
+
+theorem decDigits_length_pos (n : Nat) : 0 < (decDigits n).length := by
+  fun_induction decDigits n with
+  | case1 n h => simp
+  | case2 n h ih => simp
+
+theorem decDigits_length_le (n : Nat) : (decDigits n).length ≤ n / 10 + 1 := by
+  fun_induction decDigits n with
+  | case1 n h => simp
+  | case2 n h ih => simp only [List.length_append, List.length_singleton]; omega
+
+/-- no leading zero: `10^(L-1) ≤ n` for `n > 0` -/
+theorem decDigits_pow_le (n : Nat) (hn : 0 < n) : 10 ^ ((decDigits n).length - 1) ≤ n := by
+  fun_induction decDigits n with
+  | case1 n h => simp; omega
+  | case2 n h ih =>
+    have hpos := decDigits_length_pos (n / 10)
+    have := ih (by omega)
+    simp only [List.length_append, List.length_singleton, Nat.add_sub_cancel]
+    have e : (decDigits (n / 10)).length = ((decDigits (n / 10)).length - 1) + 1 := by omega
+    rw [e, Nat.pow_succ]
+    omega
+
+/-- a digit string of length `L` read after `x` denotes less than `(x+1)·10^L` -/
+theorem decFold_lt (x : Nat) (s : List Nat) (hd : ∀ c ∈ s, charIsDigit c = true) :
+    decFold x s < (x + 1) * 10 ^ s.length := by
+  induction s generalizing x with
+  | nil => rw [decFold_nil]; simp
+  | cons d rest ih =>
+    have hdig := (charIsDigit_iff d).1 (hd d (List.mem_cons_self))
+    have hrest : ∀ c ∈ rest, charIsDigit c = true := fun c hc => hd c (List.mem_cons_of_mem _ hc)
+    rw [decFold_cons]
+    have h1 := ih (10 * x + (d - 48)) hrest
+    have h2 : (10 * x + (d - 48) + 1) * 10 ^ rest.length ≤ ((x + 1) * 10) * 10 ^ rest.length :=
+      Nat.mul_le_mul_right _ (by omega)
+    rw [List.length_cons, Nat.pow_succ, Nat.mul_comm (10 ^ rest.length) 10, ← Nat.mul_assoc]
+    omega
+
+/-- `decDigits n` is a shortest digit string denoting `n` -/
+theorem decDigits_shortest (n : Nat) (w : List Nat) (hne : w ≠ [])
+    (hd : ∀ c ∈ w, charIsDigit c = true) (hv : decFold 0 w = n) :
+    (decDigits n).length ≤ w.length := by
+  have hwpos : 0 < w.length := List.length_pos_of_ne_nil hne
+  by_cases hn : n = 0
+  · subst hn
+    have : (decDigits 0).length = 1 := by rw [decDigits]; simp
+    omega
+  · have h1 := decDigits_pow_le n (by omega)
+    have h2 := decFold_lt 0 w hd
+    rw [hv, Nat.zero_add, Nat.one_mul] at h2
+    by_contra hlt
+    have h3 : 10 ^ w.length ≤ 10 ^ ((decDigits n).length - 1) :=
+      Nat.pow_le_pow_right (by omega) (by omega)
+    omega
+
+theorem strFromInt_closed (x : Int) (h0 : 0 ≤ x) (hx : x ≤ 2147483647) :
+    strFromInt x = some (decDigits x.toNat) := by
+  unfold strFromInt fromStr
+  rw [if_pos h0]
+  have hmap : (decDigits x.toNat).map (fun c => if c ≤ MAX_CHAR then c else REPLACEMENT_CHAR)
+      = decDigits x.toNat := by
+    conv_rhs => rw [← List.map_id (decDigits x.toNat)]
+    apply List.map_congr_left
+    intro c hc
+    have := decDigits_digits _ c hc
+    have hm : MAX_CHAR = 196607 := rfl
+    rw [if_pos (by omega)]; rfl
+  rw [hmap]
+  apply make_of_le
+  have := decDigits_length_le x.toNat
+  omega
+
+theorem strFromInt_neg (x : Int) (h : x < 0) : strFromInt x = some [] := by
+  unfold strFromInt; rw [if_neg (by omega)]
+
 end Smt.Str
